@@ -157,6 +157,15 @@ func (e *Executor) traverse(rt RequestTask) error {
 			if err := e.startRemoteRequest(rt); err != nil {
 				return err
 			}
+			// the request may have been cancelled between the check above and the send: the manager's cancel
+			// then went out before our request and would be overridden by it, so cancel again behind it
+			select {
+			case <-rt.Ctx.Done():
+				e.manager.SendRequest(rt.P, gsmsg.NewCancelRequest(rt.Request.ID()))
+				rt.ReconciledLoader.SetRemoteOnline(false)
+				return ipldutil.ContextCancelError{}
+			default:
+			}
 			// retry the load
 			result = safeLoad(rt, rt.ReconciledLoader.RetryLastLoad)
 		}
